@@ -63,3 +63,13 @@ package commands
 //@        && (tres("FormatFile", old(tlen()) + 2) == nil ==> tlen() == old(tlen()) + 4 && targ("WriteFile", 0, old(tlen()) + 3) == old(args[0])
 //@            && targ("WriteFile", 1, old(tlen()) + 3) == targ("FormatFile", 0, old(tlen()) + 2) && result == tres("WriteFile", old(tlen()) + 3))
 //@   ensures [C18] @stdout: !old(r.inplace) && tres1("train", old(tlen())) == nil && tres1("parseAndInfer", old(tlen()) + 1) == nil ==> tlen() == old(tlen()) + 3
+//
+// execute (transcode): the journal is written by exactly one Transcode call, only after loading and the
+// processor pipeline succeeded, and never with a missing valuation commodity.
+//@ func (*transcodeRunner).execute
+//@   requires r != nil && cmd != nil && len(args) >= 1
+//@   modifies *
+//@   callback FromPath=0
+//@   callback Process=1
+//@   callback Transcode=2
+//@   ensures [C14] [C16] @once: tlen() <= old(tlen()) + 3 && (result == nil ==> tlen() == old(tlen()) + 3 && tres1("FromPath", old(tlen())) == nil && tres("Process", old(tlen()) + 1) == nil)
